@@ -438,6 +438,7 @@ func runPipe(p *PipePlan, ch *simrt.Choices, trace bool, adopt map[string][]byte
 	sim.TraceOn = trace
 	sim.StallProb = c.StallProb
 	sim.StallFilter = c.StallFilter
+	sim.Raw.SendDelay = time.Duration(c.RawSendDelayUs) * time.Microsecond
 	if c.StallMaxMs > 0 {
 		sim.StallMax = time.Duration(c.StallMaxMs) * time.Millisecond
 	}
